@@ -129,9 +129,12 @@ def osTmpdir (v : List Byte) (size : Nat) : Result :=
 def scratchCap : Nat := 4097
 
 /-- uv_cwd (core.c:753-789).  `getcwd(buf, n)` succeeds iff `len + 1 ≤ n` and then stores the path and
-its terminator; on ERANGE it stores nothing (Linux syscall / glibc).  Second attempt into `scratch`;
-if that is too small as well the errno (ERANGE) is returned.  `fixup` strips one trailing slash. -/
-def cwd (v : List Byte) (size : Nat) : Result :=
+its terminator.  When it fails with ERANGE the Linux syscall stores nothing, but glibc's fallback for
+paths of PATH_MAX bytes and more builds the path backwards from the end of the buffer before giving up:
+`residue` is what the failed call left in the caller's buffer (an OS outcome; libc contract: inside the
+buffer).  Second attempt into `scratch`; if that is too small as well the errno (ERANGE) is returned.
+`fixup` strips one trailing slash. -/
+def cwdR (v : List Byte) (size : Nat) (residue : Writes) : Result :=
   if size = 0 then ⟨EINVAL, [], size⟩
   else
     let len := v.length
@@ -140,8 +143,11 @@ def cwd (v : List Byte) (size : Nat) : Result :=
       if strip then ⟨0, memcpyW 0 (v ++ [0]) ++ [(len - 1, 0)], len - 1⟩
       else ⟨0, memcpyW 0 (v ++ [0]), len⟩
     else if len + 1 ≤ scratchCap then
-      ⟨ENOBUFS, [], (if strip then len - 1 else len) + 1⟩
-    else ⟨ERANGE, [], size⟩
+      ⟨ENOBUFS, residue, (if strip then len - 1 else len) + 1⟩
+    else ⟨ERANGE, residue, size⟩
+
+/-- the common case: the failed first `getcwd` left the buffer alone -/
+def cwd (v : List Byte) (size : Nat) : Result := cwdR v size []
 
 /-- uv_exepath (procfs-exepath.c:28-46): `n = *size - 1; if (n > 0) n = readlink(.., buffer, n);`
 readlink stores `min(len, n)` bytes and no terminator; `buffer[n] = 0; *size = n`. -/
